@@ -44,6 +44,7 @@ type c07ctx struct {
 	light    bool     // secondary group: fewer presentations
 	baseHex  string   // cached witness fields
 	coefHex  []string
+	batDone  map[string]bool // derived-object batteries already run in this job
 }
 
 var c07CoefKinds = []string{"NewPriPoly(secret)", "secret=0", "edge-coefficients", "NewPriPoly(nil)", "zero-leading-coefficient", "all-zero", "edge-secret"}
@@ -178,7 +179,7 @@ func c07(r *mon.R) {
 		r.Guard(key, map[string]any{"group": j.g.Name, "kind": j.kind, "n": j.n, "t": j.t, "variant": j.idx}, func() {
 			switch j.kind {
 			case "arith":
-				c07Arith(r, j.g, j.idx)
+				c07Arith(r, j.g, j.light, j.idx)
 			default:
 				rng := gen.New(r.Seed, fmt.Sprintf("C07/%s/%s/n%d/t%d", j.kind, j.g.Name, j.n, j.t), j.idx)
 				c := c07NewDealer(r, j.g, rng, j.n, j.t, j.idx, (j.n+j.t+j.idx)%len(c07CoefKinds), (j.t+2*j.idx+j.n/2)%len(c07BaseKinds))
